@@ -35,12 +35,12 @@ type failure struct {
 }
 
 type report struct {
-	Runs         int       `json:"runs"`
-	Steps        int       `json:"steps"`
-	EdgesTotal   int       `json:"edges_total"`
-	EdgesCovered int       `json:"edges_covered"`
-	Nodes        int       `json:"nodes"`
-	Failures     []failure `json:"failures"`
+	Runs         int        `json:"runs"`
+	Steps        int        `json:"steps"`
+	EdgesTotal   int        `json:"edges_total"`
+	EdgesCovered int        `json:"edges_covered"`
+	Nodes        int        `json:"nodes"`
+	Failures     []failure  `json:"failures"`
 	Samples      [][]string `json:"samples"`
 }
 
@@ -109,12 +109,23 @@ func execute(cap0 int, g *graph.Graph, path []int, exp []*state) (step int, want
 		}
 	}()
 	rb := ringbuffer.New[int](int64(cap0))
+	var held [][]int
+	var snap []string
 	for i, ei := range path {
 		cur = i
 		e := g.Edges[ei]
-		w, gt := apply(rb, e.Act, argInt(e), exp[i])
+		w, gt, h := apply(rb, e.Act, argInt(e), exp[i])
 		if w != gt {
 			return i, w, gt
+		}
+		for k := range held {
+			if fmt.Sprint(held[k]) != snap[k] {
+				return i, "batch returned by an earlier PopN stays " + snap[k], fmt.Sprint("it became ", held[k])
+			}
+		}
+		if len(h) > 0 {
+			held = append(held, h)
+			snap = append(snap, fmt.Sprint(h))
 		}
 	}
 	return -1, "", ""
@@ -129,7 +140,8 @@ func argInt(e graph.Edge) int {
 	return n
 }
 
-func apply(rb *ringbuffer.RingBuffer[int], act string, arg int, s *state) (want, got string) {
+// held: the slice PopN returned (the caller owns it from now on; later ring operations must not change it)
+func apply(rb *ringbuffer.RingBuffer[int], act string, arg int, s *state) (want, got string, held []int) {
 	switch act {
 	case "Push":
 		rb.Push(arg)
@@ -152,8 +164,9 @@ func apply(rb *ringbuffer.RingBuffer[int], act string, arg int, s *state) (want,
 		}
 		want = fmt.Sprint("PopN=", w, s.Aret.Ok)
 		got = fmt.Sprint("PopN=", vs, ok)
+		held = vs
 	default:
-		return "known action", act
+		return "known action", act, nil
 	}
 	if want == got {
 		// Len must equal pushes minus pops after every call
@@ -176,6 +189,8 @@ func doReplay(path string) int {
 	}
 	// replay against an in-harness abstract queue derived from the ops themselves
 	var q []int
+	var held [][]int
+	var snap []string
 	rb := ringbuffer.New[int](int64(f.Cap0))
 	bad := func() (r bool) {
 		defer func() {
@@ -220,9 +235,18 @@ func doReplay(path string) int {
 					}
 				}
 				q = q[k:]
+				if len(vs) > 0 {
+					held = append(held, vs)
+					snap = append(snap, fmt.Sprint(vs))
+				}
 			}
 			if int(rb.Len()) != len(q) {
 				return true
+			}
+			for k := range held {
+				if fmt.Sprint(held[k]) != snap[k] {
+					return true
+				}
 			}
 		}
 		return false
